@@ -5,6 +5,8 @@ CONSTANTS
   FIX_CLOSE = TRUE
   USER_NESTS = FALSE
   USER_REMOVES_ENTRIES = FALSE
+  USER_RENAMES = FALSE
+  RECHECK_ON_RENAME = FALSE
   FIX_BYUSER = FALSE
 INVARIANTS FdsMatch ListOK AllGone Released CreateOnce
 CHECK_DEADLOCK FALSE
